@@ -1465,10 +1465,13 @@ class Executor:
                 pos = st.fresh_const("spos", z3.ArraySort(o.k.sort(), z3.IntSort()))
                 k = z3.Const("k!se", o.k.sort())
                 i = z3.Int("i!se")
-                st.assume(z3.ForAll([k], z3.Implies(o.member[k], z3.And(0 <= pos[k], pos[k] < o.n, keys[pos[k]] == k)), patterns=[pos[k]]))
+                # (opt-in, set by a plugin on its own sets: the membership term is an alternative trigger of the enumeration axiom)
+                extra = [o.member[k]] if getattr(o, "enum_trigger_on_member", False) else []
+                st.assume(z3.ForAll([k], z3.Implies(o.member[k], z3.And(0 <= pos[k], pos[k] < o.n, keys[pos[k]] == k)), patterns=[pos[k]] + extra))
                 st.assume(z3.ForAll([i], z3.Implies(z3.And(0 <= i, i < o.n), z3.And(o.member[keys[i]], pos[keys[i]] == i)), patterns=[keys[i]]))
                 seq = IterV(o.n, lambda i: o.k.project(st, keys[i]))
                 seq.keys, seq.pos = keys, pos
+                seq.source_set = (o.k, o.member, o.n)  # the iterated set at this moment (immutable terms)
                 sn = z3.simplify(o.n)
                 if z3.is_int_value(sn) and sn.as_long() == 0:
                     seq.concrete = []
